@@ -1,21 +1,26 @@
 (* C05, tie by PROOF: the kernel TEXTS of jitcount and _jitbin_array (Gen/Kernels.v, regenerated from /repo's source on
    every run) compute exactly the functional models count_binned / bin_sum_cnt of Model/Count.v used by the C05
-   theorems - bin centres as half-tick rationals, counts, and per-bin means (NaN for an empty bin) - for every series
-   (sorted or not) and every interval list, for every EVEN positive bin size in ticks, whenever the interpreter terminates
-   within its fuel (termination: Properties/C15b.v).
-   Evenness is sharp: for an odd number of nanoseconds the bin centre l + b/2 falls on a half tick, the kernel compares the
-   centre ROUNDED to a whole tick (np.round(., 9), half to even) with the interval end while the model and the statement
-   compare the exact centre; C05_odd_bin_size_refuted is the computed witness (ts = [0], ep = [(0,0)], b = 1 ns: the kernel
-   reports one bin, the statement none) - a recorded finding of C05.
+   theorems - the bin grid, counts, and per-bin means (NaN for an empty bin) - for every series (sorted or not), every
+   interval list and EVERY positive bin size in ticks (even or odd), whenever the interpreter terminates within its
+   fuel (termination: Properties/C15b.v).  A doubled centre c2 of the model is reported as the tick [centre_tick c2] =
+   np.round(c2 / 2 * 1e-9, 9): c2 / 2 when c2 is even (always, for an even bin size: the *_even theorems restate the
+   result with the exact centre [qhalf c2]), the even neighbour of the half tick c2 / 2 otherwise.
+   HISTORY: until the kernels were repaired (the report test is now np.round(2 * lbound + bin_size, 9) > 2 * ends[k],
+   the exact doubled centre against the doubled end) the refinement held for even bin sizes only: for an odd number of
+   nanoseconds the bin centre l + b/2 falls on a half tick, the old kernel compared the centre ROUNDED to a whole tick
+   (np.round(., 9), half to even) with the interval end while the model and the statement compare the exact centre.
+   C05_odd_bin_size_refuted is the computed witness on the frozen translation of the old text
+   (k_jitcount_before_fix / k__jitbin_array_before_fix, Inv/Findings.v; ts = [0], ep = [(0,0)], b = 1 ns: the old
+   kernel reports one bin, the statement none), C05_odd_bin_size_repaired the same input on the current text.
    Proofs in Inv/Jitcount_func.v and Inv/Jitbin_array_func.v. *)
 From Coq Require Import ZArith QArith List.
 From Verif Require Import Base.Prelude Model.Restrict Model.Count Jit.Lang Jit.Interp Gen.Kernels.
-From Verif Require Import Inv.Jitrestrict_func Inv.Jitcount_func Inv.Jitbin_array_func.
+From Verif Require Import Inv.Jitrestrict_func Inv.Jitcount_func Inv.Jitbin_array_func Inv.Findings.
 Import ListNotations.
 Open Scope Z_scope.
 
 Theorem C05_count_kernel_text_computes_model : forall ts ep b fuel,
-  Forall (fun I => fst I <= snd I) ep -> 0 < b -> Z.even b = true ->
+  Forall (fun I => fst I <= snd I) ep -> 0 < b ->
   match run fuel k_jitcount (jitcount_args ts ep b) with
   | Return rs => rs = count_result (count_binned ts ep b)
   | OutOfFuel => True
@@ -24,7 +29,7 @@ Theorem C05_count_kernel_text_computes_model : forall ts ep b fuel,
 Proof. exact k_jitcount_computes_model. Qed.
 Print Assumptions C05_count_kernel_text_computes_model.
 
-Theorem C05_count_kernel_text_spec : forall ts ep b fuel, sortedZ ts -> canonical ep -> 0 < b -> Z.even b = true ->
+Theorem C05_count_kernel_text_spec : forall ts ep b fuel, sortedZ ts -> canonical ep -> 0 < b ->
   match run fuel k_jitcount (jitcount_args ts ep b) with
   | Return rs => rs = count_result (count_spec ts ep b)
   | OutOfFuel => True
@@ -34,7 +39,7 @@ Proof. exact k_jitcount_spec. Qed.
 Print Assumptions C05_count_kernel_text_spec.
 
 Theorem C05_bin_array_kernel_text_computes_model : forall ts vs ep b fuel,
-  0 < b -> Z.even b = true ->
+  0 < b ->
   match run fuel k__jitbin_array (bin_array_args ts vs ep b) with
   | Return rs => rs = bin_array_result (bin_sum_cnt ts vs ep b)
   | OutOfFuel => True
@@ -43,8 +48,56 @@ Theorem C05_bin_array_kernel_text_computes_model : forall ts vs ep b fuel,
 Proof. exact k__jitbin_array_computes_model. Qed.
 Print Assumptions C05_bin_array_kernel_text_computes_model.
 
+(* the reported centre: within half a tick of the exact centre c2 / 2, and exactly c2 / 2 when that is a tick *)
+Theorem C05_reported_centre : forall c2,
+  Z.abs (2 * centre_tick c2 - c2) <= 1 /\ (Z.even c2 = true -> 2 * centre_tick c2 = c2).
+Proof.
+  intros c2. split; [apply centre_tick_near|].
+  intros H. apply Z.even_spec in H. destruct H as [x ->]. rewrite centre_tick_even. reflexivity.
+Qed.
+Print Assumptions C05_reported_centre.
+
+(* even bin sizes, with the exact centres (the statements as they were when the refinement needed evenness) *)
+Theorem C05_count_kernel_text_computes_model_even : forall ts ep b fuel,
+  Forall (fun I => fst I <= snd I) ep -> 0 < b -> Z.even b = true ->
+  match run fuel k_jitcount (jitcount_args ts ep b) with
+  | Return rs => rs = [Ar (A1 DFlt (map (fun p => VFlt (Some (qhalf (fst p)))) (count_binned ts ep b)));
+                       Ar (A1 DInt (map ncell (count_binned ts ep b)))]
+  | OutOfFuel => True
+  | _ => False
+  end.
+Proof. exact k_jitcount_computes_model_even. Qed.
+Print Assumptions C05_count_kernel_text_computes_model_even.
+
+Theorem C05_bin_array_kernel_text_computes_model_even : forall ts vs ep b fuel,
+  0 < b -> Z.even b = true ->
+  match run fuel k__jitbin_array (bin_array_args ts vs ep b) with
+  | Return rs => rs = [Ar (A1 DFlt (map (fun p => VFlt (Some (qhalf (fst p)))) (bin_sum_cnt ts vs ep b)));
+                       Ar (A1 DFlt (map mean_cell (bin_sum_cnt ts vs ep b)))]
+  | OutOfFuel => True
+  | _ => False
+  end.
+Proof. exact k__jitbin_array_computes_model_even. Qed.
+Print Assumptions C05_bin_array_kernel_text_computes_model_even.
+
+(* HISTORY: the kernel texts before the repair, frozen in Inv/Findings.v *)
 Theorem C05_odd_bin_size_refuted :
-  run 200 k_jitcount (jitcount_args [0] [(0, 0)] 1) = Return [Ar (A1 DFlt [VFlt (Some 0%Q)]); Ar (A1 DInt [VInt 1])]
-  /\ count_binned [0] [(0, 0)] 1 = [].
-Proof. exact odd_bin_size_differs. Qed.
+  run 200 k_jitcount_before_fix (jitcount_args [0] [(0, 0)] 1)
+  = Return [Ar (A1 DFlt [VFlt (Some 0%Q)]); Ar (A1 DInt [VInt 1])]
+  /\ run 300 k__jitbin_array_before_fix (bin_array_args [0] [9] [(0, 0)] 1)
+     = Return [Ar (A1 DFlt [VFlt (Some 0%Q)]); Ar (A1 DFlt [VFlt (Some 9%Q)])]
+  /\ count_binned [0] [(0, 0)] 1 = [] /\ bin_sum_cnt [0] [9] [(0, 0)] 1 = [].
+Proof.
+  destruct odd_bin_size_differs as [A B]. destruct odd_bin_size_differs_bin_array as [C D].
+  repeat split; assumption.
+Qed.
 Print Assumptions C05_odd_bin_size_refuted.
+
+Theorem C05_odd_bin_size_repaired :
+  run 200 k_jitcount (jitcount_args [0] [(0, 0)] 1) = Return [Ar (A1 DFlt []); Ar (A1 DInt [])]
+  /\ run 300 k__jitbin_array (bin_array_args [0] [9] [(0, 0)] 1) = Return [Ar (A1 DFlt []); Ar (A1 DFlt [])].
+Proof.
+  split; [|exact odd_bin_size_repaired_bin_array].
+  destruct odd_bin_size_repaired as [A B]. rewrite A, B. reflexivity.
+Qed.
+Print Assumptions C05_odd_bin_size_repaired.
